@@ -8,7 +8,7 @@ DOMAIN_T = f"""(define (domain w)
 {REQ}
 (:types t1 t3 - object t2 - t1)
 (:constants c - t1)
-(:predicates (r) (p ?a - t1) (q ?a - t1 ?b - t1) (m ?a - object) (s ?a - t2) (u ?a - t1 ?b - t1 ?c - t3))
+(:predicates (r) (p ?a - t1) (q ?a - t1 ?b - t1) (m ?a - object) (s ?a - t2) (u ?a - t1 ?b - t1 ?c - t3) (f) (g ?a - t1))
 (:functions (f) (g ?a - t1) (h ?a - t1 ?b - t1) (k ?a - t2) (w ?a - t1 ?b - t1 ?c - t3) (tr ?a - t1 ?b - t1 ?c - t1))
 (:action a :parameters (?x - t1) :precondition (and (p ?x)) :effect (and (not (p ?x)))))
 """
@@ -23,7 +23,8 @@ DOMAIN_U = """(define (domain w)
 """
 OBJ_T = {"o1": "t1", "o2": "t2", "o3": "t3"}
 OBJ_U = {"o1": "object", "o2": "object"}
-SIG_T = {"r": [], "p": ["t1"], "q": ["t1", "t1"], "m": ["object"], "s": ["t2"], "u": ["t1", "t1", "t3"]}
+# (f) and (g ?a) are declared both as predicates and as functions: a fact and a fluent may share their name and arguments
+SIG_T = {"r": [], "p": ["t1"], "q": ["t1", "t1"], "m": ["object"], "s": ["t2"], "u": ["t1", "t1", "t3"], "f": [], "g": ["t1"]}
 FSIG_T = {"f": [], "g": ["t1"], "h": ["t1", "t1"], "k": ["t2"], "w": ["t1", "t1", "t3"], "tr": ["t1", "t1", "t1"]}
 PARENT = {"t1": "object", "t2": "t1", "t3": "object", "object": None}
 NUMERALS = ["0", "7", "-3", "2.5", "-0.25", "1e2", "2.5e-1", "12345.678", "2.5e-7", "0.0000123456"]
@@ -75,6 +76,7 @@ def fluent_text(k, numeral):
 
 
 NUM_GOALS = ["(> (g o1) 1)", "(<= (f) 2.5)", "(= (h o1 o1) 0)", "(>= (+ (g o1) (f)) (* 2 (g o2)))"]
+NUM_GOALS_NUMERAL_FIRST = ["(< 3 (g o1))", "(>= 2.5 (f))", "(<= 0 (h o1 o1))", "(> 1 (+ (g o1) (f)))"]
 
 
 def valid_problems(tier):
@@ -123,7 +125,8 @@ def valid_problems(tier):
                "objs_text": " ".join(f"{n} - {t}" for n, t in OBJ_T.items()), "atoms": [["p", "o1"]],
                "fluents": {key: "5", "f": "1"}, "goals": [], "numgoals": [], "tag3": key}
     # goals made of numeric conditions only
-    for ng in ([NUM_GOALS[0]], [NUM_GOALS[1], NUM_GOALS[3]], list(NUM_GOALS)):
+    for ng in ([NUM_GOALS[0]], [NUM_GOALS[1], NUM_GOALS[3]], list(NUM_GOALS), [NUM_GOALS_NUMERAL_FIRST[0]],
+               NUM_GOALS_NUMERAL_FIRST[1:3], list(NUM_GOALS_NUMERAL_FIRST), [NUM_GOALS[0], NUM_GOALS_NUMERAL_FIRST[3]]):
         yield {"kind": "valid", "typed": True, "objects": dict(OBJ_T), "decl": "one-by-one",
                "objs_text": " ".join(f"{n} - {t}" for n, t in OBJ_T.items()), "atoms": [["p", "o1"]],
                "fluents": {"f": "1", "g o1": "2", "g o2": "0", "h o1 o1": "0"}, "goals": [], "numgoals": ng}
